@@ -14,6 +14,12 @@ import (
 	"strings"
 
 	"github.com/bufbuild/buf/private/bufpkg/bufcas"
+	"github.com/bufbuild/buf/private/bufpkg/bufconfig"
+	"github.com/bufbuild/buf/private/bufpkg/bufmodule"
+	"github.com/bufbuild/buf/private/bufpkg/bufmodule/bufmodulestore"
+	"github.com/bufbuild/buf/private/bufpkg/bufprotoplugin/bufprotopluginos"
+	"github.com/bufbuild/buf/private/pkg/filelock"
+	"github.com/bufbuild/buf/private/pkg/slogext"
 	"github.com/bufbuild/buf/private/pkg/storage"
 	"github.com/bufbuild/buf/private/pkg/storage/storagearchive"
 	"github.com/bufbuild/buf/private/pkg/storage/storagemem"
@@ -22,6 +28,9 @@ import (
 	"github.com/bufbuild/buf/private/pkg/verifhook"
 	"github.com/bufbuild/verif/engine"
 	"github.com/bufbuild/verif/gen"
+	"github.com/bufbuild/verif/modgen"
+	"google.golang.org/protobuf/proto"
+	"google.golang.org/protobuf/types/pluginpb"
 	"github.com/bufbuild/verif/sched"
 	"github.com/bufbuild/verif/simfs"
 	"github.com/bufbuild/verif/tape"
@@ -37,6 +46,7 @@ type caseData struct {
 	tarData []byte
 	zipData []byte
 	par     int
+	u       *modgen.Universe
 }
 
 type dest struct {
@@ -44,11 +54,15 @@ type dest struct {
 	raw    storage.ReadWriteBucket // un-instrumented view for state snapshots
 	writer *faultWriter
 	dir    string
+	// provider hands out instrumented disk buckets (for code that opens its own)
+	provider storageos.Provider
 }
 
 type writePath struct {
-	name   string
-	stream bool // destination is an io.Writer
+	name    string
+	stream  bool // destination is an io.Writer
+	modules bool // needs a module universe
+	osOnly  bool // destination is always a real directory (reached through a storageos.Provider)
 	run    func(ctx context.Context, c *caseData, d *dest) error
 }
 
@@ -148,6 +162,104 @@ var writePaths = []*writePath{
 	}},
 }
 
+func init() {
+	writePaths = append(writePaths,
+		&writePath{name: "ModuleDataStore.Put(dir)", modules: true, run: func(ctx context.Context, c *caseData, d *dest) error {
+			return putModules(ctx, c, d, false)
+		}},
+		&writePath{name: "ModuleDataStore.Put(tar)", modules: true, run: func(ctx context.Context, c *caseData, d *dest) error {
+			return putModules(ctx, c, d, true)
+		}},
+		&writePath{name: "CommitStore.Put", modules: true, run: func(ctx context.Context, c *caseData, d *dest) error {
+			var idx []int
+			for i := range c.u.Modules {
+				idx = append(idx, i)
+			}
+			commits, err := c.u.Provider.GetCommitsForModuleKeys(ctx, c.u.Keys(idx))
+			if err != nil {
+				return fmt.Errorf("harness: %w", err)
+			}
+			return bufmodulestore.NewCommitStore(slogext.NopLogger, d.bucket).PutCommits(ctx, commits)
+		}},
+		&writePath{name: "PutBufLockFile", modules: true, run: func(ctx context.Context, c *caseData, d *dest) error {
+			var idx []int
+			for i := range c.u.Modules {
+				idx = append(idx, i)
+			}
+			version := bufconfig.FileVersionV2
+			if c.u.DigestType == bufmodule.DigestTypeB4 {
+				version = bufconfig.FileVersionV1
+			}
+			f, err := bufconfig.NewBufLockFile(version, c.u.Keys(idx), nil)
+			if err != nil {
+				return fmt.Errorf("harness: %w", err)
+			}
+			return bufconfig.PutBufLockFileForPrefix(ctx, d.bucket, "proj", f)
+		}},
+		&writePath{name: "PutBufWorkYAMLFile", run: func(ctx context.Context, c *caseData, d *dest) error {
+			dirs := []string{}
+			seen := map[string]bool{}
+			for _, p := range c.paths {
+				dir := filepath.Dir(p)
+				if dir != "." && !seen[dir] && !strings.Contains(dir, "/") {
+					seen[dir] = true
+					dirs = append(dirs, dir)
+				}
+			}
+			if len(dirs) == 0 {
+				dirs = []string{"proto"}
+			}
+			f, err := bufconfig.NewBufWorkYAMLFile(bufconfig.FileVersionV1, dirs)
+			if err != nil {
+				return fmt.Errorf("harness: %w", err)
+			}
+			return bufconfig.PutBufWorkYAMLFileForPrefix(ctx, d.bucket, ".", f)
+		}},
+		&writePath{name: "PluginResponseWriter(dir)", osOnly: true, run: func(ctx context.Context, c *caseData, d *dest) (retErr error) {
+			// generated files are staged in memory and flushed on Close
+			w := bufprotopluginos.NewResponseWriter(slogext.NopLogger, d.provider, bufprotopluginos.ResponseWriterWithCreateOutDirIfNotExists())
+			resp := &pluginpb.CodeGeneratorResponse{}
+			for _, p := range c.paths {
+				resp.File = append(resp.File, &pluginpb.CodeGeneratorResponse_File{Name: proto.String(p), Content: proto.String(string(c.files[p]))})
+			}
+			if err := w.AddResponse(ctx, resp, d.dir); err != nil {
+				return err
+			}
+			return w.Close()
+		}},
+	)
+}
+
+func putModules(ctx context.Context, c *caseData, d *dest, tar bool) error {
+	var idx []int
+	for i := range c.u.Modules {
+		idx = append(idx, i)
+	}
+	datas, err := c.u.Provider.GetModuleDatasForModuleKeys(ctx, c.u.Keys(idx))
+	if err != nil {
+		return fmt.Errorf("harness: %w", err)
+	}
+	var opts []bufmodulestore.ModuleDataStoreOption
+	if tar {
+		opts = append(opts, bufmodulestore.ModuleDataStoreWithTar())
+	}
+	store := bufmodulestore.NewModuleDataStore(slogext.NopLogger, d.bucket, filelock.NewNopLocker(), opts...)
+	return store.PutModuleDatas(ctx, datas)
+}
+
+// simProvider is a storageos.Provider whose buckets are instrumented.
+type simProvider struct {
+	r *runner
+}
+
+func (p *simProvider) NewReadWriteBucket(rootPath string, options ...storageos.ReadWriteBucketOption) (storage.ReadWriteBucket, error) {
+	raw, err := storageos.NewProvider().NewReadWriteBucket(rootPath, options...)
+	if err != nil {
+		return nil, err
+	}
+	return &simfs.Bucket{S: p.r.s, U: raw, Name: "dst", Hooks: p.r.hooks}, nil
+}
+
 // faultWriter is an io.Writer whose every Write is a scheduling and fault point.
 type faultWriter struct {
 	s   *sched.Sim
@@ -216,7 +328,11 @@ func (r *runner) newDest(c *caseData) *dest {
 		d.writer = &faultWriter{s: r.s}
 		return d
 	}
-	switch c.dstKind {
+	kind := c.dstKind
+	if c.wp.osOnly {
+		kind = "os"
+	}
+	switch kind {
 	case "mem":
 		raw := storagemem.NewReadWriteBucket()
 		d.raw = raw
@@ -234,7 +350,8 @@ func (r *runner) newDest(c *caseData) *dest {
 		d.raw = raw
 		sb := &simfs.Bucket{S: r.s, U: raw, Name: "dst", Hooks: r.hooks}
 		d.bucket = sb
-		if c.dstKind == "osmap" {
+		d.provider = &simProvider{r: r}
+		if kind == "osmap" {
 			// the real prefix-mapping code sits between the write path and the faults
 			d.raw = storage.MapReadWriteBucket(raw, storage.MapOnPrefix("sub/dir"))
 			d.bucket = storage.MapReadWriteBucket(sb, storage.MapOnPrefix("sub/dir"))
@@ -337,6 +454,16 @@ func Run(tp *tape.Tape, env *engine.Env) *engine.Outcome {
 	c.dstKind = tape.Pick(tp, "dst", []string{"mem", "os", "osmap"})
 	c.par = tape.Pick(tp, "par", []int{8, 1, 2, 3})
 	thread.SetParallelism(c.par)
+	if c.wp.modules {
+		u, err := modgen.New(tp, modgen.Options{MaxModules: 3, MaxFiles: 4, AllowB4: true, Extras: true})
+		if err != nil {
+			panic(err)
+		}
+		c.u = u
+	}
+	if c.wp.osOnly {
+		c.dstKind = "os"
+	}
 	var tb, zb bytes.Buffer
 	if err := storagearchive.Tar(context.Background(), srcBucket(c), &tb); err != nil {
 		panic(err)
